@@ -130,8 +130,8 @@ pub fn check_exp_digits(c: &ExpArg) -> Verdict {
     let carried = rd == cfg.precision + 1 && dec_of(&r).canonical().int.magnitude() == &num_bigint::BigUint::from(1u8);
     ensure!(v, rd == cfg.precision || carried, "C20/exp-digits", "exp({}) has {} significant digits but {} were configured", c.d.dec().show(), rd, cfg.precision);
     ensure!(v, dec_of(&r).signum() > 0, "C20/exp-positive", "exp({}) = {}", c.d.dec().show(), dec_of(&r).show());
-    // accuracy as far as the implementation's fixed working precision can reach it: the first min(P, 100) digits
-    let pd = cfg.precision.min(100);
+    // "deliver the configured number of significant digits": all P digits must be digits of e^x
+    let pd = cfg.precision;
     if let (bdoracle::expo::ExpVerdict::Outside { approx_units }, _) = bdoracle::expo::judge(&c.d.dec(), &dec_of(&r), pd, 1) {
         ensure!(v, false, "C20/exp-inaccurate", "exp({}) is {:.2} units of digit {} away from e^x", c.d.dec().show(), approx_units, pd);
     }
@@ -174,7 +174,8 @@ pub fn check_fmt(c: &Fmt) -> Verdict {
                 Some(r) => (false, r),
                 None => (true, text.as_str()),
             };
-            let frac_pad: u128 = if n > 0 { n as u128 + 1 } else { 0 };
+            // the limit is on the number of padded zeros (the point is not a zero)
+            let frac_pad: u128 = n as u128;
             let zero_pad: u128 = if scale <= 0 { (-scale) as u128 + frac_pad } else { 0 };
             let ambiguous_zero = c.d.is_zero() && scale < 0 && frac_pad <= cfg.padding as u128 && zero_pad > cfg.padding as u128;
             let unpadded = if ambiguous_zero { !body.contains('.') && (n > 0 || body.contains('e')) } else { scale <= 0 && zero_pad > cfg.padding as u128 };
